@@ -18,6 +18,8 @@ import (
 //	13 Reverse zs          14 ReverseStr runes       15 Shuffle seed zs stream
 //	16 Map k zs            17 ForEach zs             18 ForEachRight zs
 //	19 Reduce op init zs   20 Unzip(Zip(zss)...)     21 Zip(Unzip(zss)...)
+//	22 Chunk zs hi lo      23 Drop zs hi lo          (the int argument is hi*2^32+lo: the
+//	                                                 model runner reads 63-bit words only)
 //
 // predicates (p, pa): 0 true, 1 false, 2 even, 3 (< pa), 4 (== pa)
 // key functions k: c11Key.  Reduce ops: 0 acc+v, 1 2*acc+v, 2 v-acc
@@ -62,6 +64,10 @@ func c12Stream(seed int64, n int) []int {
 	}
 	return out
 }
+
+// an int as two wire words: n = hi*2^32 + lo, -2^31 <= hi < 2^31, 0 <= lo < 2^32
+func c12Split(n int) (hi, lo int) { return n >> 32, n & 0xffffffff }
+func c12Wide(hi, lo int) int      { return hi<<32 + lo }
 
 func okInts(xs []int) []int64     { return (&W{}).Int(0).Ints(xs).Out() }
 func okIntss(xss [][]int) []int64 { return (&W{}).Int(0).Intss(xss).Out() }
@@ -123,7 +129,13 @@ func execC12(in []int64) []int64 {
 			res = plainInts(gogu.Merge(s, ps...))
 		case 12:
 			s, n := r.Ints(), r.Int()
-			res = plainInts(gogu.Drop(s, n))
+			res = okInts(gogu.Drop(s, n))
+		case 22:
+			s, hi, lo := r.Ints(), r.Int(), r.Int()
+			res = okIntss(gogu.Chunk(s, c12Wide(hi, lo)))
+		case 23:
+			s, hi, lo := r.Ints(), r.Int(), r.Int()
+			res = okInts(gogu.Drop(s, c12Wide(hi, lo)))
 		case 13:
 			res = okInts(gogu.Reverse(cloneInts(r.Ints())))
 		case 14:
@@ -192,7 +204,8 @@ func execC12(in []int64) []int64 {
 
 var c12Names = map[int]string{1: "Chunk", 2: "Partition", 3: "Filter", 4: "Reject", 5: "DropWhile", 6: "DropRightWhile",
 	7: "GroupBy", 8: "Zip", 9: "Unzip", 10: "Flatten", 11: "Merge", 12: "Drop", 13: "Reverse", 14: "ReverseStr",
-	15: "Shuffle", 16: "Map", 17: "ForEach", 18: "ForEachRight", 19: "Reduce", 20: "Unzip(Zip)", 21: "Zip(Unzip)"}
+	15: "Shuffle", 16: "Map", 17: "ForEach", 18: "ForEachRight", 19: "Reduce", 20: "Unzip(Zip)", 21: "Zip(Unzip)",
+	22: "Chunk", 23: "Drop"}
 
 func c12PredName(c, a int) string {
 	switch c {
@@ -206,6 +219,13 @@ func c12PredName(c, a int) string {
 		return "<" + strconv.Itoa(a)
 	}
 	return "==" + strconv.Itoa(a)
+}
+
+func c12Short(s []int) string {
+	if len(s) <= 12 {
+		return fmt.Sprint(s)
+	}
+	return fmt.Sprintf("[%d %d %d ... %d elements]", s[0], s[1], s[2], len(s))
 }
 
 func describeC12(in []int64) string {
@@ -225,6 +245,9 @@ func describeC12(in []int64) string {
 	case 1, 12:
 		s, n := r.Ints(), r.Int()
 		return fmt.Sprintf("%s(%v, %d)", name, s, n)
+	case 22, 23:
+		s, hi, lo := r.Ints(), r.Int(), r.Int()
+		return fmt.Sprintf("%s(%s, %d)", name, c12Short(s), c12Wide(hi, lo))
 	case 2, 3, 4, 5, 6:
 		c, a, s := r.Int(), r.Int(), r.Ints()
 		return fmt.Sprintf("%s(%v, %s)", name, s, c12PredName(c, a))
@@ -416,6 +439,9 @@ func genC12(g *Gen) {
 		emit("malformed", true, (&W{}).Int(10).Raw(code))
 	}
 
+	c12Large(g, emit, shuffle)
+	c12Extreme(g, emit)
+
 	// --- seeded random larger inputs
 	var randTree func(d int) []int64
 	randTree = func(d int) []int64 {
@@ -534,7 +560,144 @@ func genC12(g *Gen) {
 	}
 }
 
+// c12Large: many arguments, long slices, many distinct keys, deep and wide nestings (both tiers).
+func c12Large(g *Gen, emit func(string, bool, *W), shuffle func(string, int, []int)) {
+	const st = "large"
+	for _, n := range []int{100, 130, 257, 500, 1023, 2000} {
+		s := make([]int, n)    // few distinct values
+		d := g.Rng.Perm(n)     // n distinct values (many keys for GroupBy)
+		for i := range s {
+			s[i] = g.Rng.Intn(7) - 2
+		}
+		g.Count(fmt.Sprintf("large: slice of %d", n))
+		for _, size := range []int{1, 2, 7, 64, n - 1, n, n + 1} {
+			emit(st, true, (&W{}).Int(1).Ints(s).Int(size))
+		}
+		for _, k := range []int{1, -1, n - 1, -(n - 1), n, -n, n + 1, -(n + 1)} {
+			emit(st, true, (&W{}).Int(12).Ints(d).Int(k))
+		}
+		for _, p := range [][2]int{{2, 0}, {3, 1}, {4, 0}, {0, 0}, {1, 0}} {
+			for fn := 2; fn <= 6; fn++ {
+				emit(st, true, (&W{}).Int(fn).Int(p[0]).Int(p[1]).Ints(s))
+			}
+		}
+		emit(st, true, (&W{}).Int(4).Int(3).Int(n/2).Ints(d))
+		emit(st, true, (&W{}).Int(6).Int(3).Int(n/2).Ints(d))
+		for k := 0; k <= 3; k++ {
+			g.Count("large: GroupBy")
+			emit(st, true, (&W{}).Int(7).Int(k).Ints(d)) // k=0: n groups of one; k=3: n/2 groups of two, interleaved
+			emit(st, true, (&W{}).Int(7).Int(k).Ints(s))
+			emit(st, true, (&W{}).Int(16).Int(k).Ints(d))
+		}
+		for _, fn := range []int{13, 17, 18} {
+			emit(st, true, (&W{}).Int(fn).Ints(d))
+		}
+		for _, op := range []int{0, 2} { // 2*acc+v would leave the int range
+			emit(st, true, (&W{}).Int(19).Int(op).Int(1).Ints(s))
+		}
+		runes := make([]int, n)
+		for i := range runes {
+			runes[i] = []int{0x61, 0xE9, 0x20AC, 0x1F600, 0x7A}[g.Rng.Intn(5)]
+		}
+		emit(st, true, (&W{}).Int(14).Ints(runes))
+		shuffle(st, 7+n, d)
+	}
+	for _, k := range []int{5, 33, 64, 65, 70, 130, 257, 300} {
+		g.Count(fmt.Sprintf("large: %d arguments", k))
+		ps := make([][]int, k)
+		for i := range ps {
+			switch i % 3 {
+			case 0:
+				ps[i] = []int{i, i + 1}
+			case 1:
+				ps[i] = []int{}
+			default:
+				ps[i] = []int{i}
+			}
+		}
+		emit(st, true, (&W{}).Int(11).Ints([]int{-1}).Intss(ps))
+		emit(st, true, (&W{}).Int(11).Ints(nil).Intss(ps))
+		if k > 130 {
+			continue // matrices up to 130 x 130
+		}
+		sq := make([][]int, k)
+		for i := range sq {
+			sq[i] = make([]int, k)
+			for j := range sq[i] {
+				sq[i][j] = (i*k + j) % 97
+			}
+		}
+		short := make([][]int, k) // the last row one element short
+		long := make([][]int, k)  // k rows of k+1
+		for i := range sq {
+			short[i] = sq[i]
+			long[i] = append(cloneInts(sq[i]), 7)
+		}
+		short[k-1] = sq[k-1][:k-1]
+		for _, fn := range []int{8, 9, 20, 21} {
+			emit(st, true, (&W{}).Int(fn).Intss(sq))
+			emit(st, true, (&W{}).Int(fn).Intss(short))
+			emit(st, true, (&W{}).Int(fn).Intss(long))
+			emit(st, true, (&W{}).Int(fn).Intss(sq[:k-1])) // k-1 rows of k
+		}
+	}
+	// Flatten: a chain of []any of the given depth around a leaf, and a []any with many children
+	for _, depth := range []int{40, 200, 1000} {
+		for _, leaf := range [][]int64{{0, 5}, {1, 3, 1, 2, 3}, {3}, {2, 0}} {
+			var code []int64
+			for i := 0; i < depth; i++ {
+				code = append(code, 2, 1)
+			}
+			g.Count("large: nesting depth")
+			emit(st, true, (&W{}).Int(10).Raw(append(code, leaf...)))
+		}
+	}
+	for _, width := range []int{300, 2000} {
+		for _, last := range [][]int64{{0, 9}, {3}, {2, 1, 2, 1, 4}} {
+			code := []int64{2, int64(width)}
+			for i := 0; i < width-1; i++ {
+				if i%5 == 4 {
+					code = append(code, 2, 2, 0, int64(i), 1, 1, int64(-i))
+				} else {
+					code = append(code, 0, int64(i%11))
+				}
+			}
+			g.Count("large: nesting width")
+			emit(st, true, (&W{}).Int(10).Raw(append(code, last...)))
+		}
+	}
+}
+
+// c12Extreme: the int arguments (Chunk's size, Drop's count) at the ends of the int range and around
+// the 32-bit boundaries, sent as (hi, lo) halves (fn 22/23); a few ordinary values tie 22/23 to 1/12.
+func c12Extreme(g *Gen, emit func(string, bool, *W)) {
+	const st = "extreme"
+	const maxInt, minInt = int(^uint(0) >> 1), -int(^uint(0)>>1) - 1
+	long := make([]int, 100)
+	for i := range long {
+		long[i] = i % 9
+	}
+	slices := [][]int{{}, {1}, {1, 2}, {1, 2, 3}, {1, 2, 3, 4}, {5, 6, 7, 8, 9, 10, 11}, long}
+	for _, s := range slices {
+		n := len(s)
+		vals := []int{maxInt, maxInt - 1, minInt, minInt + 1, 1 << 31, 1<<31 - 1, -(1 << 31), -(1 << 31) - 1,
+			1<<32 - 1, 1 << 32, 1<<32 + 1, -(1 << 32), -(1<<32 + 1), 1 << 62, -(1 << 62), 1<<63 - 1 - n, -1, 0, 1, 2, 3,
+			n - 1, n, n + 1, -n, -n - 1, maxInt / 2, maxInt/2 + 1, minInt / 2}
+		for k := 0; k <= n+2; k++ { // within len of the ends of the range
+			vals = append(vals, maxInt-k, minInt+k)
+		}
+		for _, v := range vals {
+			hi, lo := c12Split(v)
+			if v <= -(1<<31) || v >= 1<<31 {
+				g.Count("extreme: |int argument| >= 2^31")
+			}
+			emit(st, true, (&W{}).Int(22).Ints(s).Int(hi).Int(lo))
+			emit(st, true, (&W{}).Int(23).Ints(s).Int(hi).Int(lo))
+		}
+	}
+}
+
 func init() {
 	register(&Prop{ID: "C12", Exec: execC12, Gen: genC12, Describe: describeC12,
-		Rule: "exhaustive: every slice over {0,1,2} up to length 5 (thorough 7) x chunk sizes 1..8 / drop counts -9..9 / the predicate family {true,false,even,<1,<2,==0,==1,==2} for Partition,Filter,Reject,DropWhile,DropRightWhile / key functions {id,%2,const,/2} for GroupBy and Map / Reverse, ForEach, ForEachRight / Reduce with {acc+v, 2*acc+v, v-acc} x init {0,1}; Merge of a slice <= 3 with every tuple of <= 3 slices of length <= 2 over {0,1}; every square 0/1 matrix up to 3x3 (thorough 4x4) and every non-square shape with <= 3 (4) rows of length <= 3 (4) for Zip, Unzip, Unzip.Zip, Zip.Unzip; Flatten on the nestings of C11 (depth <= 3, wrong-typed nodes included); ReverseStr on every rune string up to length 4 (5) over {a,é,€,😀}; Shuffle of [0..n-1] and of a slice with repeats, n <= 5, math/rand seeds 1..120 (600); malformed: chunk size <= 0, ragged matrices, nil/wrong-typed nodes; then seeded random inputs up to length 40 over [-50,50], matrices to 6x6, nestings to depth 5, random valid scalar values for ReverseStr. non-trivial = slice/rune string/flattening input with >= 2 elements (Drop: and n != 0; Merge: >= 1 further slice; matrices: dimension >= 2 or not square; Flatten: depth >= 2 or a wrong-typed node); distinct = distinct wire input"})
+		Rule: "exhaustive: every slice over {0,1,2} up to length 5 (thorough 7) x chunk sizes 1..8 / drop counts -9..9 / the predicate family {true,false,even,<1,<2,==0,==1,==2} for Partition,Filter,Reject,DropWhile,DropRightWhile / key functions {id,%2,const,/2} for GroupBy and Map / Reverse, ForEach, ForEachRight / Reduce with {acc+v, 2*acc+v, v-acc} x init {0,1}; Merge of a slice <= 3 with every tuple of <= 3 slices of length <= 2 over {0,1}; every square 0/1 matrix up to 3x3 (thorough 4x4) and every non-square shape with <= 3 (4) rows of length <= 3 (4) for Zip, Unzip, Unzip.Zip, Zip.Unzip; Flatten on the nestings of C11 (depth <= 3, wrong-typed nodes included); ReverseStr on every rune string up to length 4 (5) over {a,é,€,😀}; Shuffle of [0..n-1] and of a slice with repeats, n <= 5, math/rand seeds 1..120 (600); malformed: chunk size <= 0, ragged matrices, nil/wrong-typed nodes; large (both tiers): slices of 100/130/257/500/1023/2000 elements through every helper (n distinct keys for GroupBy), 5/33/64/65/70/130 arguments for Merge/Zip/Unzip (Merge also 257/300) (square, one row short, one column more, one row fewer), nestings of depth 40/200/1000 and width 300/2000 for Flatten; extreme (both tiers): Chunk sizes and Drop counts in {MaxInt-k, MinInt+k (k <= len+2), 2^31, 2^31-1, -2^31, 2^32-1, 2^32, 2^32+1, 2^62, MaxInt/2, -1, 0, ..} on slices of 0..7 and 100 elements; then seeded random inputs up to length 40 over [-50,50], matrices to 6x6, nestings to depth 5, random valid scalar values for ReverseStr. non-trivial = slice/rune string/flattening input with >= 2 elements (Drop: and n != 0; Merge: >= 1 further slice; matrices: dimension >= 2 or not square; Flatten: depth >= 2 or a wrong-typed node); distinct = distinct wire input"})
 }
